@@ -55,6 +55,7 @@ static void violation(State &s, const std::string &kind, const std::string &msg,
   if (OPT.verbose) fprintf(stderr, "symx: VIOLATION %s %s in %s at %s\n", kind.c_str(), msg.c_str(), fn.c_str(), loc.c_str());
 }
 
+static z3::expr byte_ex_fwd(const Byte &b) { return b.k == BK_CONC ? Z.bv_val((unsigned)b.c, 8) : *b.e; }
 // ---------------------------------------------------------------- access checks
 static const Obj *access_obj(State &s, const Val &p, const char *what)
 {
@@ -151,7 +152,7 @@ static Val do_load(State &s, const Val &p, unsigned bits, bool want_ptr)
   const Obj &o = *find_obj(s, p.obj);
   if (p.conc) return load_conc(s, o, p.c, bits, want_ptr);
   // enumerate the feasible offsets; through the narrow variables they depend on when possible
-  Support sp = small_support(*p.e, 16);
+  Support sp = small_support(*p.e, 10);
   std::vector<std::pair<z3::expr, uint64_t>> targets;     // (condition, offset)
   if (sp.ok)
   {
@@ -198,6 +199,15 @@ static Val do_load(State &s, const Val &p, unsigned bits, bool want_ptr)
       auto it = groups.find(key);
       if (it == groups.end()) { groups.emplace(key, cv.first); order.push_back(key); }
       else it->second = it->second || cv.first;
+    }
+    bool all_conc_ptrs = true;
+    for (auto &cv : vals) if (!(cv.second.isptr && cv.second.obj >= 0 && cv.second.conc)) all_conc_ptrs = false;
+    if (all_conc_ptrs && bits == 64)
+    {
+      Val mv; mv.bits = 64; mv.isptr = true; mv.obj = -2; mv.conc = true; mv.c = 0;
+      mv.multi = std::make_shared<std::vector<PtrTarget>>();
+      for (auto &k : order) mv.multi->push_back(PtrTarget{mkep(groups.at(k).simplify()), k.first, k.second});
+      return mv;
     }
     ForkReq fr; for (auto &k : order) fr.alts.push_back(groups.at(k).simplify());
     fr.prechecked = true;      // every group contains an assignment the solver produced: feasible by construction
@@ -362,10 +372,47 @@ static void init_const(Obj &o, uint64_t off, const Constant *c)
   store_conc(dummy, o, off, v, bits);
 }
 
+// a multi-target pointer becomes an ordinary pointer: by elimination when the path condition leaves one target, else by a case split
+static Val resolve_ptr(State &s, const Val &v)
+{
+  if (!v.multi) return v;
+  std::vector<const PtrTarget *> feas;
+  for (auto &t : *v.multi) if (may_be_true(s, *t.cond)) feas.push_back(&t);
+  if (feas.empty()) throw PathEnd{"infeasible"};
+  if (feas.size() > 1) { ForkReq fr; for (auto *t : feas) fr.alts.push_back(*t->cond); throw fr; }
+  return mk_ptr(feas[0]->obj, feas[0]->off);
+}
+
 // ---------------------------------------------------------------- strings
 // Read a NUL-terminated string.  Symbolic bytes that may or may not be NUL cause a fork.
 static void read_cstr(State &s, const Val &p0, std::vector<Byte> &out, const char *what, uint64_t maxn = ~0ULL)
 {
+  if (p0.multi)
+  {
+    // read every feasible target; targets of equal length are merged byte-wise (no fork), different lengths case-split
+    std::vector<std::pair<const PtrTarget *, std::vector<Byte>>> strs;
+    for (auto &t : *p0.multi)
+    {
+      if (!may_be_true(s, *t.cond)) continue;
+      std::vector<Byte> b; read_cstr(s, mk_ptr(t.obj, t.off), b, what, maxn);
+      strs.push_back({&t, b});
+    }
+    if (strs.empty()) throw PathEnd{"infeasible"};
+    std::map<size_t, z3::expr> bylen;
+    for (auto &sb : strs) { auto it = bylen.find(sb.second.size()); if (it == bylen.end()) bylen.emplace(sb.second.size(), *sb.first->cond); else it->second = it->second || *sb.first->cond; }
+    if (bylen.size() > 1) { ForkReq fr; for (auto &kv : bylen) fr.alts.push_back(kv.second.simplify()); throw fr; }
+    size_t n = strs[0].second.size();
+    for (size_t i = 0; i < n; i++)
+    {
+      bool same = true;
+      for (auto &sb : strs) if (!(sb.second[i].k == BK_CONC && strs[0].second[i].k == BK_CONC && sb.second[i].c == strs[0].second[i].c)) same = false;
+      if (same) { out.push_back(strs[0].second[i]); continue; }
+      z3::expr e = byte_ex_fwd(strs[0].second[i]);
+      for (size_t k = 1; k < strs.size(); k++) e = z3::ite(*strs[k].first->cond, byte_ex_fwd(strs[k].second[i]), e);
+      out.push_back(sbyte(e));
+    }
+    return;
+  }
   Val p = p0;
   if (p.isptr && p.obj >= 0 && !p.conc)
   {
